@@ -102,6 +102,20 @@ def build(e, K=2, S=2, M=1, crowd=0, usage=False, allow_list=True, blur=None,
         o = w.new_conn("o1")
         w.bind(o, B[0].app, sym("o.side"))
         x.other = o
+    elif o_shape == "sub0s0+sub1s0":
+        # two connections, each subscribed to its own mailbox
+        for label, bj in (("o1", 0), ("o2", 1)):
+            if bj >= len(B):
+                e.assume(False)
+            b = B[bj]
+            e.assume(b.sides[0].p)
+            o = w.new_conn(label)
+            w.bind(o, b.app, b.sides[0].side)
+            ex = w.deliver(o, w.msg("open", mailbox=b.mid))
+            if ex is not None or o._mailbox is None:
+                raise Inconclusive("setup: could not subscribe connection %s (%r)" % (label, ex))
+            x.subs.append((o, b, 0))
+            x.other = o
     elif o_shape != "none":
         bj = {"sub0s0": 0, "sub0s1": 0, "sub1s0": 1}[o_shape]
         sj = {"sub0s0": 0, "sub0s1": 1, "sub1s0": 0}[o_shape]
